@@ -237,7 +237,7 @@ const PROCEDURES: &[&str] = &[
     "newline", "string-append", "number->string", "make-recursive-mutex", "lock-mutex", "unlock-mutex", "list", "cons",
     "car", "cdr", "null?", "reverse", "append", "length", "for-each", "eq?", "eqv?", "string=?", "string-null?",
     "string-length", "zero?", "1+", "1-", "force-output", "flush-all-ports", "string?", "apply", "string-join", "make-hash-table", "hash-set!", "hash-ref", "hash-remove!", "hash-count",
-    "call-with-output-string", "open-output-string", "get-output-string", "vector", "vector-ref", "vector-length", "list-ref", "min", "max", "abs", "modulo", "remainder",
+    "current-thread", "try-mutex", "mutex-locked?", "mutex-owner", "call-with-output-string", "open-output-string", "get-output-string", "vector", "vector-ref", "vector-length", "list-ref", "min", "max", "abs", "modulo", "remainder",
 ];
 
 fn builtin_name(name: &str) -> Option<&'static str> {
@@ -1173,6 +1173,53 @@ impl Runtime {
                 out?;
                 Ok(v)
             }
+            "current-thread" => Ok(Val::Int(1_000_000 + ctx.thread as i128)),
+            "mutex-locked?" | "mutex-owner" => match args.first() {
+                Some(Val::Mutex(m)) => {
+                    self.point();
+                    let owner = self.cell(*m, name)?.owner.load(Ordering::SeqCst);
+                    Ok(if name == "mutex-locked?" {
+                        Val::Bool(owner != 0)
+                    } else if owner == 0 {
+                        Val::Bool(false)
+                    } else {
+                        Val::Int(1_000_000 + owner as i128 - 1)
+                    })
+                }
+                other => runtime(format!("{name}: not a mutex: {other:?}")),
+            },
+            "try-mutex" => match args.first() {
+                Some(Val::Mutex(m)) => {
+                    let cell = self.cell(*m, name)?;
+                    self.point();
+                    if cell.owner.load(Ordering::SeqCst) == ctx.thread + 1 {
+                        if cell.recursive {
+                            cell.depth.fetch_add(1, Ordering::SeqCst);
+                            return Ok(Val::Bool(true));
+                        }
+                        return Ok(Val::Bool(false));
+                    }
+                    let got = match &cell.sh {
+                        Some((mx, _)) => {
+                            let mut g = mx.lock().unwrap_or_else(|e| e.into_inner());
+                            if *g {
+                                false
+                            } else {
+                                *g = true;
+                                true
+                            }
+                        }
+                        None => cell.owner.load(Ordering::SeqCst) == 0,
+                    };
+                    if got {
+                        cell.owner.store(ctx.thread + 1, Ordering::SeqCst);
+                        cell.depth.store(1, Ordering::SeqCst);
+                        self.ev(Ev::Lock { thread: ctx.thread, mutex: *m });
+                    }
+                    Ok(Val::Bool(got))
+                }
+                other => runtime(format!("try-mutex: not a mutex: {other:?}")),
+            },
             "lock-mutex" | "unlock-mutex" => match args.first() {
                 Some(Val::Mutex(m)) => {
                     if name == "lock-mutex" {
